@@ -114,24 +114,24 @@ PROPS.update({
         "title": "Compression keeps the message, stays valid and never grows the packet",
         "units": ["U7", "U1"],
         "cone": {"U1": [r"DNSSector::(parse|parse_rr|parse_opt|parse_question|new)$"],
-                 "U7": [r"Compress::(compress|compress_rdata|copy_compressed_name|copy_compressed_name_with_base_offset|indirections|raw_name_len|raw_name_len_after_decompression)$", r"SuffixDict::", r"Default for Suffix", r"spec/(dict|rename|locality|names|pfpacket|reader|iter)\\.rs", r"ResponseIterator::", r"QuestionIterator::", r"ParsedPacket::into_iter_"]},
-        "witness": ("c06", 3000),
+                 "U7": [r"Compress::(compress|compress_rdata|copy_compressed_name|copy_compressed_name_with_base_offset|indirections|raw_name_len|raw_name_len_after_decompression)$", r"SuffixDict::", r"Default for Suffix", r"spec/(dict|ptr|rename|locality|names|pfpacket|reader|iter)\\.rs", r"ResponseIterator::", r"QuestionIterator::", r"ParsedPacket::into_iter_"]},
+        "witness": ("c06", 12000),
         "level": "proof", "design_ref": "DESIGN.md section 5 C06",
         "assumptions": U1_ASSUME + ["#[derive(Default)] on SuffixDict yields count == 0 and index == 0 (assumed specification of the derived impl)",
                                      "units with iterator client loops are verified with --no-lifetime"],
-        "level_text": "PARTIAL proof: (F1) representation invariant of the suffix dictionary, (F2) insert against the abstract view (hit: some live entry equals the suffix up to ASCII case, nothing changes; miss: exactly slot `index` is replaced, every other slot untouched), (F3) the offset remembered for a suffix is its position in the OUTPUT, (F4) what the name emitter appends is whole labels followed by nothing or one pointer below 0x4000 that stands for at least 3 bytes, (F5) a compressed name/record/packet is never longer than the original, (F6) every record of every section is re-emitted, OPT included, (F7) the RDLENGTH written back equals the data bytes emitted; compress() succeeds exactly on accepted packets and copies the header. NOT proved by contracts: that a pointer designates the suffix it stands for in the output, that the result is accepted, and message equality -- these clauses are exercised only by the differential replay (compress, re-parse, compare, decompress)",
+        "level_text": "PARTIAL proof: (F1) representation invariant of the suffix dictionary, (F2) insert against the abstract view (hit: some live entry equals the suffix up to ASCII case, nothing changes; miss: exactly slot `index` is replaced, every other slot untouched), (F3) the offset remembered for a suffix is its position in the OUTPUT, (F4) what the name emitter appends is whole labels followed by nothing or one pointer below 0x4000 that stands for at least 3 bytes, (F5) a compressed name/record/packet is never longer than the original, (F6) every record of every section is re-emitted, OPT included, (F7) the RDLENGTH written back equals the data bytes emitted, (F8) 'every pointer it emits designates, in the output, the suffix it stands for', at the level of the name emitter: if every live dictionary entry designates in the output a valid name equal to its suffix up to ASCII case (dict_ok), then after copy_compressed_name_with_base_offset the name just emitted is valid under the parser's name rule (at most 16 pointers: Compress::indirections is proved to return exactly the number of pointers the parser follows), decodes in the output to the input name up to ASCII case, and dict_ok holds again (spec/ptr.rs: walk transport, labels-then-pointer composition, pending-entry invariant of the emitter loop); compress() succeeds exactly on accepted packets and copies the header. NOT proved by contracts: that dict_ok survives the RDLENGTH fix-up of compress_rdata (a 2-byte write into the record header just emitted, which no name occupies) and hence that it holds at every emitter call of compress(); that the whole result is accepted; message equality -- these clauses are exercised by the differential replay (compress, re-parse, compare, decompress)",
         "technique": "Verus data-structure invariant + view-based postconditions for the dictionary; frame/length/count contracts for the emitter and the section loops; remaining clauses by differential replay (stated)",
     },
     "C07": {
         "title": "Renaming rewrites exactly the matching names and nothing else",
         "units": ["U8"],
-        "cone": [r"Renamer::", r"spec/(rename|dict|locality|names)\\.rs", r"Compress::(copy_compressed_name|copy_compressed_name_with_base_offset|copy_uncompressed_name|indirections|raw_name_len)$", r"SuffixDict::", r"ResponseIterator::", r"QuestionIterator::", r"ParsedPacket::(into_iter_|copy_header)"],
-        "witness": ("c07", 3000),
+        "cone": [r"Renamer::", r"spec/(rename|dict|ptr|locality|names)\\.rs", r"Compress::(copy_compressed_name|copy_compressed_name_with_base_offset|copy_uncompressed_name|indirections|raw_name_len)$", r"SuffixDict::", r"ResponseIterator::", r"QuestionIterator::", r"ParsedPacket::(into_iter_|copy_header)"],
+        "witness": ("c07", 12000),
         "level": "proof", "design_ref": "DESIGN.md section 5 C07",
         "assumptions": ["source and target are well-formed pointer-free names under the parser's character policy (is_cname), both non-root: the property's quantifier",
                         "on an Err exit taken while an iterator is still alive, 'the packet object is unchanged' is not stated (Verus does not resolve the prophecy of the live iterator at a `?` exit); it is stated for Ok exits",
                         "units with iterator client loops are verified with --no-lifetime"],
-        "level_text": "PARTIAL proof: replace_raw is proved EQUAL to replace_spec (label-aligned, case-insensitive exact/suffix match; result = kept labels ++ target; TooLong exactly when the result would exceed 255) for all well-formed names; copy_with_replaced_name fails exactly when replace_spec is TooLong and otherwise appends the compressed form (whole labels + at most one pointer) of the rewritten -- or, without a match, the original -- expanded name, which is again a clean name; every name-bearing record type writes RDLENGTH == bytes appended after the 10-byte header (one obligation per arm: NS/CNAME/PTR, MX, SOA); the OPT record is copied by the generic arm in place; the section walks only read the packet object; header copied. NOT proved by contracts: that the output is accepted and whole-message equality (differential replay only); ParsedPacket::rename_with_raw_names (re-parse wrapper with its four assert_eq! on the EDNS summary) is not under contract",
+        "level_text": "PARTIAL proof: replace_raw is proved EQUAL to replace_spec (label-aligned, case-insensitive exact/suffix match; result = kept labels ++ target; TooLong exactly when the result would exceed 255) for all well-formed names; copy_with_replaced_name fails exactly when replace_spec is TooLong and otherwise appends the compressed form (whole labels + at most one pointer) of the rewritten -- or, without a match, the original -- expanded name, which is again a clean name; the emitter's F8 clause (see C06: a faithful dictionary in, the emitted name valid and equal up to case, a faithful dictionary out) is verified in this unit too; every name-bearing record type writes RDLENGTH == bytes appended after the 10-byte header (one obligation per arm: NS/CNAME/PTR, MX, SOA); the OPT record is copied by the generic arm in place; the section walks only read the packet object; header copied. NOT proved by contracts: that the output is accepted and whole-message equality (differential replay only); ParsedPacket::rename_with_raw_names (re-parse wrapper with its four assert_eq! on the EDNS summary) is not under contract",
         "technique": "Verus functional contract of replace_raw against a spec function + per-record bookkeeping obligations on the extracted renamer; remaining clauses by differential replay (stated)",
     },
     "C13": {
